@@ -271,7 +271,8 @@ func RunConc(s *kernel.Sim, prof *Profile, free bool) *Env {
 					// C06: every audit record of this call was synced before it returned
 					e.Sink.mu.Lock()
 					for _, r := range e.Sink.Recs {
-						if r.OpSeq == octx.Seq && !r.Synced {
+						// (a call that failed for another reason promises nothing about its record)
+						if r.OpSeq == octx.Seq && !r.Synced && (co.Res.Class == model.OK || co.Res.Class == model.AccessDenied) {
 							e.fail("audit-sync", "client %d %s -> %s: the call returned although its audit record had not been synced (a sync that was already in flight when the record was written does not cover it): %s", c, co.Op, co.Res, r.Data)
 						}
 					}
